@@ -7,6 +7,14 @@ Domain (one case = one fresh session):
           before the banner or in the middle of key exchange / accept(None) / accept(5) / two
           concurrent accept(None); plus the documented event forms auth_password(event=) and
           start_client(event=) where the caller waits on the event)
+  state   for the calls named "<call>@rekey...": a key re-exchange is in flight when the connection is
+          lost - started by the tested side (renegotiate_keys() in a thread, which is itself a blocked
+          call that must come back: the peer's KEXINIT is held on the link) or by the peer (its KEXINIT
+          is delivered, its kex reply + NEWKEYS are held); who starts it is drawn (flavor // 8 % 2).
+          The sending calls (send / sendall on an open window, exec_command, invoke_subsystem,
+          global_request, open_session) are then parked in Transport._send_user_message behind the
+          unfinished exchange; "send@rekey-zero-window" sits in the window wait and the re-exchange
+          starts while it waits; recv / accept(None) wait where they always wait
   timeout None, or 5 s where the API has a timeout knob (settimeout / timeout= / auth_timeout)
   moment  call-first (the call is verifiably blocked, then the loss happens), loss-first (the loss
           happened and the transport noticed it, then the call is issued), together (call and
@@ -66,7 +74,7 @@ class Inconclusive(Exception):
 
 
 class Spec:
-    def __init__(self, role, fn, expect, kind="session", auth=True, chan=False, mute="raw", timeouts=(None,), ready=None, moments=("call-first", "loss-first", "together"), callers=1, fill=False, service=False):
+    def __init__(self, role, fn, expect, kind="session", auth=True, chan=False, mute="raw", timeouts=(None,), ready=None, moments=("call-first", "loss-first", "together"), callers=1, fill=False, service=False, rekey=None):
         self.role = role
         self.fn = fn
         self.expect = expect  # (file basename, function) that must be on the blocked caller's stack
@@ -80,6 +88,9 @@ class Spec:
         self.callers = callers
         self.fill = fill
         self.service = service  # tested client is a ServiceRequestingTransport (auth waits for SERVICE_ACCEPT itself)
+        # a key re-exchange is in flight at the loss: "before" = started before the call is issued (the call parks
+        # behind it), "after-call" = in call-first order it starts once the call is blocked (otherwise before)
+        self.rekey = rekey
 
 
 def _saw(ptype):
@@ -183,8 +194,14 @@ def c_accept_5(env, t):
     return env.tested.accept(5)
 
 
+def _kex_held(env):
+    # the re-exchange was started and the peer's next kex packet sits on the held link: it cannot finish
+    return env.rekey_started and env.rx.n_pending() >= 1
+
+
 CF = ("call-first",)
 T5 = (None, 5)
+SUM = ("transport.py", "_send_user_message")
 CALLS = {
     "recv": Spec("client", c_recv, ("buffered_pipe.py", "read"), chan=True, timeouts=T5),
     "recv_stderr": Spec("client", c_recv_stderr, ("buffered_pipe.py", "read"), chan=True, timeouts=T5),
@@ -207,6 +224,16 @@ CALLS = {
     "accept-none": Spec("server", c_accept_none, ("transport.py", "accept")),
     "accept-5": Spec("server", c_accept_5, ("transport.py", "accept")),
     "accept2": Spec("server", c_accept_none, ("transport.py", "accept"), callers=2, moments=CF),
+    # -- a key re-exchange is in flight when the connection is lost (the inbound link direction is held)
+    "send@rekey": Spec("client", c_send, SUM, chan=True, mute="hold", timeouts=T5, ready=_kex_held, rekey="before"),
+    "sendall@rekey": Spec("client", c_sendall, SUM, chan=True, mute="hold", timeouts=T5, ready=_kex_held, rekey="before"),
+    "exec_command@rekey": Spec("client", c_exec, SUM, chan=True, mute="hold", ready=_kex_held, rekey="before"),
+    "invoke_subsystem@rekey": Spec("client", c_subsystem, SUM, chan=True, mute="hold", ready=_kex_held, rekey="before"),
+    "global_request@rekey": Spec("client", c_global_request, SUM, mute="hold", ready=_kex_held, rekey="before"),
+    "open_session@rekey": Spec("client", c_open_session, SUM, mute="hold", timeouts=T5, ready=_kex_held, rekey="before"),
+    "send@rekey-zero-window": Spec("client", c_send, ("channel.py", "_wait_for_send_window"), chan=True, mute="hold", timeouts=T5, fill=True, ready=_kex_held, rekey="after-call"),
+    "recv@rekey": Spec("client", c_recv, ("buffered_pipe.py", "read"), chan=True, mute="hold", timeouts=T5, ready=_kex_held, rekey="after-call"),
+    "accept-none@rekey": Spec("server", c_accept_none, ("transport.py", "accept"), mute="hold", ready=_kex_held, rekey="after-call"),
 }
 
 LINK_LOSSES = ("peer-close", "link-eof", "link-error", "local-close", "disconnect", "garbage")
